@@ -103,7 +103,7 @@ fn c_dur(v: &Value) -> Result<Box<fd::Duration>, CErr> {
     let f = |k: &str| v.get(k).map(f64_exact).unwrap_or(0.0);
     fd::Duration::create(f(DK[0]), f(DK[1]), f(DK[2]), f(DK[3]), f(DK[4]), f(DK[5]), f(DK[6]), f(DK[7]), f(DK[8]), f(DK[9]))
 }
-fn farr(v: &Value, n: usize) -> Vec<f64> { let x = v.as_array().expect("number array"); assert!(x.len() == n); x.iter().map(a_f64).collect() }
+fn farr(v: &Value, n: usize) -> Vec<f64> { f_array(&json!({"f": v}), "f", n) }
 fn c_tdur(v: &Value) -> Result<Box<fd::TimeDuration>, CErr> { let f = farr(v, 6); fd::TimeDuration::new(f[0], f[1], f[2], f[3], f[4], f[5]) }
 fn c_ddur(v: &Value) -> Result<Box<fd::DateDuration>, CErr> { let f = farr(v, 4); fd::DateDuration::new(f[0], f[1], f[2], f[3]) }
 /// receiver instants are built through the public inner field (NOT through the FFI constructor under test)
@@ -126,7 +126,7 @@ fn c_ptime(v: &Value) -> fpt::PartialTime {
         millisecond: dopt(oi(v, "millisecond").map(|x| x as u16)), microsecond: dopt(oi(v, "microsecond").map(|x| x as u16)), nanosecond: dopt(oi(v, "nanosecond").map(|x| x as u16)) }
 }
 fn c_pdur(v: &Value) -> fd::PartialDuration {
-    let f = |k: &str| -> DiplomatOption<f64> { dopt(match v.get(k) { Some(x) if !x.is_null() => Some(a_f64(x)), _ => None }) };
+    let f = |k: &str| -> DiplomatOption<f64> { dopt(pdur_field(v, k)) };
     fd::PartialDuration { years: f("years"), months: f("months"), weeks: f("weeks"), days: f("days"), hours: f("hours"), minutes: f("minutes"),
         seconds: f("seconds"), milliseconds: f("milliseconds"), microseconds: f("microseconds"), nanoseconds: f("nanoseconds") }
 }
@@ -159,7 +159,8 @@ fn cj_inst(i: &Box<fi::Instant>) -> Value { j_eparts(i.0.as_i128()) }
 fn cj_ym(d: &Box<fym::PlainYearMonth>) -> Value { wcal(json!({"y": int(d.iso_year() as i64), "m": d.iso_month()}), d.calendar().identifier()) }
 fn cj_md(d: &Box<fmd::PlainMonthDay>) -> Value { wcal(json!({"y": int(d.iso_year() as i64), "m": d.iso_month(), "d": d.iso_day()}), d.calendar().identifier()) }
 fn cj_sign(s: &fd::Sign) -> Value { json!(*s as i8) }
-fn era_str(s: String) -> Value { if s.is_empty() { Value::Null } else { json!(s) } }
+/// "writes an empty string for no era"
+fn era_str(s: String) -> Value { if s.is_empty() { json!([]) } else { json!([s]) } }
 /// the documented I128Nanoseconds scheme: sign taken from `high`, magnitude = |high| * 2^64 + low
 fn i128_decode(n: &fi::I128Nanoseconds) -> i128 {
     let mag = ((n.high.unsigned_abs() as u128) << 64) | n.low as u128;
@@ -320,8 +321,8 @@ fn dur(m: &str, a: &Value) -> Option<Value> {
     let d = || c_dur(&a["recv"]);
     let jf = |f: &f64| big_f64(*f);
     Some(match m {
-        "create" => runc(|| { let f = farr(&a["f"], 10); fd::Duration::create(f[0], f[1], f[2], f[3], f[4], f[5], f[6], f[7], f[8], f[9]) }, cj_dur),
-        "from_day_and_time" => runc(|| fd::Duration::from_day_and_time(a_f64(&a["day"]), &*c_tdur(&a["time"])?), cj_dur),
+        "create" => runc(|| { let f = f_array(a, "f", 10); fd::Duration::create(f[0], f[1], f[2], f[3], f[4], f[5], f[6], f[7], f[8], f[9]) }, cj_dur),
+        "from_day_and_time" => runc(|| fd::Duration::from_day_and_time(f_scalar(a, "day"), &*c_tdur(&a["time"])?), cj_dur),
         "from_partial_duration" => runc(|| fd::Duration::from_partial_duration(c_pdur(&a["partial"])), cj_dur),
         "is_time_within_range" => runc(|| Ok(d()?.is_time_within_range()), jb),
         "time" => runc(|| Ok(d()?), |x| cj_tdur_ref(x.time())),
@@ -348,7 +349,7 @@ fn dur(m: &str, a: &Value) -> Option<Value> {
 fn tdur(m: &str, a: &Value) -> Option<Value> {
     let t = || c_tdur(&a["recv"]);
     Some(match m {
-        "new" => runc(|| c_tdur(&a["f"]), cj_tdur),
+        "new" => runc(|| { let f = f_array(a, "f", 6); fd::TimeDuration::new(f[0], f[1], f[2], f[3], f[4], f[5]) }, cj_tdur),
         "abs" => runc(|| Ok(t()?.abs()), cj_tdur),
         "negated" => runc(|| Ok(t()?.negated()), cj_tdur),
         "is_within_range" => runc(|| Ok(t()?.is_within_range()), jb),
@@ -359,7 +360,7 @@ fn tdur(m: &str, a: &Value) -> Option<Value> {
 fn ddur(m: &str, a: &Value) -> Option<Value> {
     let t = || c_ddur(&a["recv"]);
     Some(match m {
-        "new" => runc(|| c_ddur(&a["f"]), cj_ddur),
+        "new" => runc(|| { let f = f_array(a, "f", 4); fd::DateDuration::new(f[0], f[1], f[2], f[3]) }, cj_ddur),
         "abs" => runc(|| Ok(t()?.abs()), cj_ddur),
         "negated" => runc(|| Ok(t()?.negated()), cj_ddur),
         "sign" => runc(|| Ok(t()?.sign()), cj_sign),
